@@ -114,8 +114,9 @@ def run(ctx, info):
     for i in res["bad"][:5]:
         ctx.broke(f"correspondence:Trend.v vs utils.py on {json.dumps(metas[i])[:400]}", "model and implementation differ")
     ctx.coverage["correspondence"] = {"cases": res["n"], "disagreements": len(res["bad"]), "files": res["files"]}
-    from .. import scripted
+    from .. import scripted, edgesuite
     scripted.long_runs(ctx, [("history", scripted.oracle_c15)])
+    edgesuite.run(ctx, "history", focus=[n for n, sk in st.get("_skeletons", {}).items() if sk.get("core_writes") and n != "ImperialistCompetitiveOptimization"])
     r = ctx.rng
     jobs = []
     for nm in search.all_names():
